@@ -4,6 +4,7 @@
 #include <condition_variable>
 #include <list>
 #include <mutex>
+#include <memory>
 #include <thread>
 
 #ifdef VS_PROJECT
@@ -62,6 +63,26 @@ struct Task : tulz::Runnable {
     }
 };
 
+// a task given as a callable with arguments (ThreadPool::start(T, Args&&...) -> TRunnable): the token dies with the last
+// copy of the callable, i.e. when the pool deletes the task (the by-value temporaries of start() are gone by then)
+struct Token {
+    int k;
+    explicit Token(int k_) : k(k_) {}
+    ~Token() { ev("Destroy", k, vs::self()); }
+};
+struct CallTask {
+    std::shared_ptr<Token> tok;
+    void operator()(int a, const std::string &s) const {
+        int k = tok->k, w = vs::self();
+        if (a != k * 7 || s != std::string(40, 'x') + std::to_string(k)) ev("ArgMismatch", k, w);
+        ev("RunBegin", k, w);
+        if (w >= 0 && w < MAXT) g_task_of[w] = k;
+        vs::yield("task");
+        if (w >= 0 && w < MAXT) g_task_of[w] = 0;
+        ev("RunEnd", k, w);
+    }
+};
+
 void owner_op(char op) {
     g_api = op;
     g_stop_notified = false;
@@ -71,6 +92,14 @@ void owner_op(char op) {
             auto *t = new Task(k);
             ev("Submit", k, 0);
             g_pool->start(t);
+            ev("StartRet", k, 0);
+            break;
+        }
+        case 'K': {
+            int k = g_next_task++;
+            CallTask c{std::make_shared<Token>(k)};
+            ev("Submit", k, 0);
+            g_pool->start(std::move(c), int(k * 7), std::string(40, 'x') + std::to_string(k));
             ev("StartRet", k, 0);
             break;
         }
